@@ -422,7 +422,7 @@ func cmdSelftest(n int) int {
 
 func knownProps() map[string]bool {
 	m := map[string]bool{}
-	for _, p := range []string{"C01", "C02", "C03", "C04", "C05", "C06", "C07", "C08", "C11", "C13", "C14", "C15", "C16", "C17", "C18", "C19"} {
+	for _, p := range []string{"C01", "C02", "C03", "C04", "C05", "C06", "C07", "C08", "C11", "C13", "C14", "C15", "C16", "C17", "C18", "C19", "C20"} {
 		m[p] = true
 	}
 	for p := range extraProps {
